@@ -22,10 +22,9 @@ bookkeeping of `ts_output/alternative.cpp`:
 * `TSInputView::InputDataCursor::modified` / `delta_value` (`base_view.cpp`) and the keyed
   transition accessors of `target_link_ops.cpp` (`target_link_previous_slot_was_published`,
   `set_access_slot_published`, `target_link_previous_contains_published`): `view`.
-  Odd on purpose, because the code is:
-  - `pubR` counts every *pending-erase* slot of the previous target as a published key, also when
-    that removal belongs to an older cycle (the slot store keeps removed slots until the next
-    mutation) — finding C13-B;
+  `pubR` is the code AFTER the fix of finding C13-B (`/verif/fixes/c13_b.patch`): a pending-erase
+  slot of the previous target counts as published only when the removal happened in the transition
+  cycle.  Odd on purpose, because the code is:
   - `dv` (`delta_value()`) of a keyed shape is the target's own delta storage: empty in a pure
     retarget cycle, only the target's own delta in a retarget+tick cycle — finding C13-A.
 * The engine part is the minimum needed: targets tick first (producers are ranked before the
@@ -224,9 +223,14 @@ structure View where
   trans : Bool := false
 
 /-- keys of the previous target that count as *published* when removals are enumerated
-    (`set_access_slot_published`: live or pending-erase, minus slots added in this cycle) -/
+    (`target_link_previous_slot_was_published` over `set_access_slot_published`): live slots, and
+    pending-erase slots only when the previous target removed them in this very cycle (the slot store
+    keeps pending-erase slots until the next mutation - an older removal was delivered in its own
+    cycle; fix of finding C13-B, see `pubRPreFix` in `Lemmas/RefLink.lean`), minus slots added in
+    this cycle -/
 def pubR (old : Target) (now : Nat) : List Int :=
-  (keys old.items ++ old.removed).filter (fun k => !(old.lmt == now && old.added.contains k))
+  (keys old.items ++ (if old.lmt == now then old.removed else [])).filter
+    (fun k => !(old.lmt == now && old.added.contains k))
 
 /-- `target_link_previous_contains_published` -/
 def pubA (old : Target) (now : Nat) (k : Int) : Bool :=
